@@ -77,10 +77,36 @@ PROPS = {
     },
     "C01": {
         "module": "ZenonVerif.Props.C01",
-        "streams": [S("ledger", 60, 3000)],
-        "rule": LEDGER_RULE,
+        "streams": [S("ledger", 60, 3000), S("genesis", 24, 600, timeout=7200)],
+        "rule": LEDGER_RULE + ". C01 in particular: (a) hostile numeric fields - in every history one burst of 8 and further "
+                "random bursts of user sends whose amount is -a / -1 / -balance / -(balance+1) / -2^254 / -(2^255-1) / -2^255 / "
+                "-2^256 / 2^255-1 / 2^255 / 2^256-1 / 2^256 / 2^256+-a / balance / balance+1 / 0, delivered through EVERY "
+                "acceptance path in rotation: Supervisor.GenerateFromTemplate, a block completed and signed by hand -> ApplyBlock, "
+                "the same through the protobuf wire form, through nom.AccountBlock JSON and through the RPC parameter type "
+                "api.AccountBlock JSON -> LedgerApi.PublishRawTransaction on an in-process API object; in the JSON forms the "
+                "amount TEXT is altered (plain, +/- sign, zero padding, -0, spaces, decimal point, exponent, hex, empty, lone / "
+                "double / unicode minus, underscores, JSON number) and the nonce text (upper case, short, long, empty, 0x, not "
+                "hex), the real decoder decides what the text means and hash + signature are made for THAT block (the hash "
+                "covers only |amount|); after every attempt the pool-state conservation monitor runs, an accepted block is read "
+                "back from the ledger (the in-flight amount is the recorded one) and must have changed its own account's "
+                "balances by exactly the recorded amount of the recorded token (send: debit, receive: credit) - for every "
+                "accepted user block of the stream; (b) supply-change monitor at every momentum: recorded supply of every token "
+                "changed by exactly the sum of the token-contract issue / mint / burn calls APPLIED in that momentum - a refused "
+                "mint leaves it unchanged; (c) one history in four runs on a mock genesis with MaxSupply = TotalSupply + delta "
+                "for ZNN and QSR (delta in rotation 0, 1, E-1, E, E+1, 2E-1, 2E, 2E+1, E+part, a few units, kE+-1, far; E = the "
+                "first epoch's liquidity reward), ten-minute reward epochs, a stake and a sentinel set up, 135 further momentums "
+                "with CollectReward calls of pillars / staker / sentinel owner to all four rewarding contracts and user Mint "
+                "calls for ZNN / QSR: contract reward mints (liquidity at the epoch update, CollectReward) meet the cap, supply <= "
+                "max at every momentum; issued tokens get caps total + 0..999 and mints of 1..500 as before; (d) genesis stream "
+                "(shared with C20, n = 24 here): every configuration the real CheckGenesis ACCEPTS (generated, permuted, "
+                "perturbed - including six kinds around declared-but-unheld tokens: mintable / fixed x zero / non-zero supply "
+                "appended, an issued token whose holders are removed or all hold zero) is started on a fresh chain and the "
+                "equality is read from that chain alone: for every token the token contract records, TotalSupply = sum of the "
+                "balances of all accounts + unreceived sends <= MaxSupply, nobody holds an unrecorded token",
         "partial": "methods of non-token contracts are parameters of the model (their observed descendant sends are inputs, "
-                   "checked for funding and exact refund); genesis consistency (T5) is C20; unconfirmed-pool states and "
+                   "checked for funding and exact refund); genesis consistency (T5) is C20 (its stream also runs here with the "
+                   "C01 equality on every started chain); mints by the bridge (Redeem of wrapped tokens) are not driven to a "
+                   "cap (needs a signing orchestrator set-up); unconfirmed-pool states and "
                    "rollbacks are covered by the stream's monitor, not by theorems; T3 takes the send-time check "
                    "MaxSupply >= TotalSupply of an issue call as a hypothesis on admissible events (the model does not repeat it "
                    "at receive time)",
@@ -282,13 +308,34 @@ PROPS = {
         "streams": [S("pow", 20000, 1000000), S("plasma", 40, 3000, timeout=7200)],
         "rule": "pow stream: boundary set + random uint64 difficulties (a sixth each: boundary, small, 2^k±2, top-bit set, "
                 "shifted, uniform), 8-byte comparisons (equal / one-bit apart / random), fused amounts around unit and cap "
-                "boundaries; plasma stream: histories on a real node where accounts without genesis plasma get QSR fused (amounts around "
+                "boundaries; SESSIONS of checks through the real pow.CheckPoWNonce (n/50+20 sessions of 1-4 interleaved "
+                "(address, previous hash, nonce) inputs, each asked under 1, 2, d*-1, d*, d*+1, 2d*, 2d*+1 (d* = the largest "
+                "difficulty its hash really meets, computed by the harness), the base-cost and cap difficulties, 0 and random "
+                "ones - ascending (cheap claim first), descending, shuffled, queries repeated in a row and again at the end): "
+                "every answer is compared with the model (pow-check), the whole session with the model's checkSeq (pow-seq) and "
+                "by a model-free monitor with LE64(SHA3(nonce|SHA3(address|previous))[:8]) >= 2^64 - 2^64/d computed with "
+                "the harness's own SHA3 calls and big integers; plasma stream (first half): histories on a real node where accounts without genesis plasma get QSR fused (amounts around "
                 "unit/base/cap boundaries), fusions are cancelled again, and the accounts publish bursts of 1-6 unconfirmed blocks "
                 "(receive, sends with boundary data lengths, embedded calls, older acknowledged momentums) with chosen fused plasma, "
                 "delivered raw with sender-chosen BasePlasma/TotalPlasma; verdict + independently read facts go to the enoughPlasma "
-                "model, monitors state the property on every accepted block; distinct = distinct (op,result) lines",
-        "partial": "SHA3 is a parameter (hash prefix supplied as input); PoW-earned plasma on a real node is exercised only "
-                   "through CheckPoWNonce with synthetic hashes (mining a nonce is too slow for a stream)",
+                "model, monitors state the property on every accepted block; second half: blocks built entirely BY HAND "
+                "(fields, hash, signature) and handed to ApplyBlock over the product of fused claim (0, what is still needed, "
+                "needed-1, base, available-1 / available / +1, cap-PoW, cap-PoW+1, cap, cap+1, huge, values that make "
+                "fused+PoW wrap round to the base cost / to 0, 1) x proof-of-work (none; really done for 1 / 20 / 10000 plasma "
+                "units, for the whole base cost -1 / exactly / +1 unit, for the PoW cap, above it; claimed with a nonce that "
+                "was not worked for under difficulty 1, 2, the base-cost difficulty, the cap, 2^63 - the SAME unworked nonce "
+                "under trivial and real claims in both orders) x account state (nothing fused / about one block / many units "
+                "/ the maximum; first block, on confirmed, on unconfirmed blocks that committed plasma): 5 accounts x 14 pairs "
+                "at the start of every history + bursts of 8; real nonces for first blocks come from a precomputed table "
+                "(meet difficulty 2^28, checked before use), small remainders are mined on the spot, the whole base cost on a "
+                "later block once per quick run (6 per thorough run); every candidate gives a pow-check line (honoured? vs "
+                "checkPoWNonce on the harness-computed hash prefix) and a plasma-check line with the claimed difficulty; "
+                "monitor on every accepted block: PoW claim met by the hash, fused <= available (independent read), fused + PoW "
+                "plasma >= base, <= cap in big integers, committed chain plasma grew by exactly the fused part; distinct = "
+                "distinct (op,result) lines",
+        "partial": "SHA3 is a parameter (hash prefix supplied as input, computed by the harness with its own SHA3 calls); "
+                   "proof-of-work worth a whole base cost on blocks other than an account's first is mined only a few times "
+                   "per run (31.5 million hashes each)",
         "assumptions": ["SHA3-256 is an uninterpreted parameter of checkPoWNonce"],
     },
     "C13": {
@@ -447,7 +494,8 @@ PROPS = {
         "rule": "genesis stream: per case one random CONSISTENT configuration derived from the mock genesis (2-9 users, 2-5 tokens, "
                 "1-5 pillars, delegations, legacy entries, 0-7 fusions with distinct ids, 0-4 swap entries, optional sporks, "
                 "optional swap/token/stake contract entries), 4 permutations of every unordered list -> NewGenesis hash in process "
-                "(every 5th config also in two fresh subprocesses), 6 single-entry perturbations drawn from 36 kinds PLUS two directed "
+                "(every 5th config also in two fresh subprocesses), 6 single-entry perturbations drawn from 42 kinds (among them six around declared-but-unheld tokens: a mintable / fixed token with "
+                "zero / non-zero TotalSupply appended that nobody holds, an issued token whose holders are removed or all hold zero) PLUS two directed "
                 "ones per configuration taken in rotation from the repaired gaps of the validators (plasma / pillar contract without "
                 "genesis entry, second entry for a user / a contract / an empty one, negative amount (fresh -v/+v pair or an existing "
                 "balance negated), nil amount, TotalSupply above MaxSupply (by 1, by half, MaxSupply 0), nil MaxSupply, a negative fusion "
@@ -455,7 +503,8 @@ PROPS = {
                 "boundaries TotalSupply = MaxSupply and zero amounts) -> real CheckGenesis (whole and validator by validator) vs model verdict; model-free "
                 "monitors: a perturbation that by construction breaks one of the sums of the statement must be refused (never "
                 "accepted, never a panic), every accepted configuration is started on a fresh chain and the ledger is compared with "
-                "the statement's sums (supply per token <= MaxSupply, plasma / pillar / swap holdings); every 4th config goes through "
+                "the statement's sums (supply per token <= MaxSupply, plasma / pillar / swap holdings) and, read from the started chain alone, "
+                "recorded TotalSupply of every token the token contract knows = balances of all accounts + unreceived sends <= MaxSupply (C01 at genesis); every 4th config goes through "
                 "ReadGenesisConfigFromFile: the config itself (same hash), one perturbation, one file with an amount field removed "
                 "(amount / Amount / totalSupply / znn / qsr / maxSupply in rotation), one with an amount written as null (fusion, "
                 "pillar, TotalSupply, MaxSupply, user balance, contract balance, swap amount in rotation) and one of the repaired gaps "
